@@ -30,14 +30,14 @@ def bytecode_records(outs, with_prog=True):
     return recs
 
 
-def judge_bytecode(chk, recs, wd, tag, names, clauses=None, batch=400):
+def judge_bytecode(chk, recs, wd, tag, names, clauses=None, batch=400, timeout=1200, heap='4g'):
     """run TraceBytecode over records; report failed clauses (restricted to `clauses` if given)"""
     n = 0
     for b in range(0, len(recs), batch):
         part = recs[b:b + batch]
         path = os.path.join(wd, '%s.%d.ndjson' % (tag, b))
         write_ndjson(path, part)
-        r = tlc_or_die('TraceBytecode', env={'RECS': path}, workers=8, timeout=1200, tag=tag)
+        r = tlc_or_die('TraceBytecode', env={'RECS': path}, workers=8, timeout=timeout, tag=tag, heap=heap)
         chk.add_tlc(r)
         vs = r.lines.get('VERDICT', [])
         if len({v['id'] for v in vs}) != len(part):
@@ -200,7 +200,7 @@ def c04(tier):
     chk.notes['pool_limit_programs'] = {xl[i]['name']: ('serialized' if 'bytes' in o and o.get('crash') is None else 'refused') for i, o in enumerate(louts)}
     if tier == 'thorough' and chk.notes['pool_limit_programs'].get('limit:pool-of-65535-constants') != 'serialized':
         chk.violation('limit:pool-of-65535-constants: a program the format can hold was refused', {'program': 'limit:pool-of-65535-constants', 'signature': {'kind': 'limit-refused'}})
-    chk.traces += judge_bytecode(chk, lrecs, wd, 'c04l', xl, clauses)
+    chk.traces += judge_bytecode(chk, lrecs, wd, 'c04l', xl, clauses, batch=1, timeout=5400, heap='8g')      # (decoding 65 535 constants and a 131 000-instruction method takes TLC some minutes)
     chk.notes['large_files_through_cli'] = big_files_via_cli(chk, exe, wd, huge_pool=(tier == 'thorough'))
     chk.notes['spec_generated_programs'] = len(gen)
     chk.notes['compiled_programs'] = len(recs)
